@@ -200,14 +200,14 @@ def _cmp_table(case, impl, model):
             # run() raised: the table of the study must not be readable (the model has no result at all)
             if not (isinstance(tab, dict) and "raise" in tab):
                 dis.append(f"run {k}: results table readable after the study raised ({len(tab)} rows)")
-            # histories: the repaired run() (SnowObj.runStudyFixed) leaves none; the K6-only code
-            # (SnowObj.runStudyK6) leaves those of the last completed repetition, all four of equal length.
-            # Both variants of the model are accepted here; the predicates decide which one violates the property.
+            # histories: /repo carries the repair of K7 (946750f): run() clears everything again when a
+            # repetition raises (model: SnowObj.runStudyFixed); the K6-only variant (SnowObj.runStudyK6,
+            # histories of the last completed repetition stay readable) is kept only as a counter-example theorem.
             st = [run["snap"][nm] for nm in ARRS]
             n_read = [len(v) for v in st if isinstance(v, list)]
-            if len(n_read) not in (0, len(ARRS)) or len(set(n_read)) > 1:
-                dis.append(f"run {k}: after the failed study the history accessors are neither all refused nor all "
-                           f"those of one completed repetition: {[len(v) if isinstance(v, list) else v for v in st]}")
+            if len(n_read) != 0:
+                dis.append(f"run {k}: after the failed study history accessors are still readable: "
+                           f"{[len(v) if isinstance(v, list) else v for v in st]}")
             continue
         if not isinstance(tab, list) or len(tab) != len(rows):
             dis.append(f"run {k}: results table impl {tab if not isinstance(tab, list) else len(tab)} rows vs model {len(rows)}")
